@@ -139,7 +139,7 @@ CallValid(D, tok, c, unit) ==
             /\ IsTextKind(v.kind) /\ OnBoundary(s, c.off, unit) /\ c.len > 0
             /\ OnBoundary(s, c.off + c.len, unit)
        [] c.op = "tdelta" -> IsTextKind(v.kind)
-       [] c.op \in {"ains", "arange"} -> v.kind = "array" /\ c.i <= Len(s)
+       [] c.op \in {"ains", "arange", "amix"} -> v.kind = "array" /\ c.i <= Len(s)
        [] c.op \in {"apushb", "apushf"} -> v.kind = "array"
        [] c.op = "adel" -> v.kind = "array" /\ c.i < Len(s)
        [] c.op = "adelr" -> v.kind = "array" /\ c.n > 0 /\ c.i + c.n <= Len(s)
@@ -162,7 +162,7 @@ ApplyCall(D, tok, c, cells, nc, unit) ==
        [] c.op = "tfmt" -> SetSeq(D, tok, TextFormat(s, k, CellsIn(s, k, c.len, unit), c.attrs))
        [] c.op = "tdel" -> SetSeq(D, tok, TextRemove(s, k, CellsIn(s, k, c.len, unit)))
        [] c.op = "tdelta" -> SetSeq(D, tok, ApplyDelta(s, c.ops, unit))
-       [] c.op \in {"ains", "arange", "xins"} -> SetSeq(D1, tok, SeqInsert(s, c.i, cells))
+       [] c.op \in {"ains", "arange", "amix", "xins"} -> SetSeq(D1, tok, SeqInsert(s, c.i, cells))
        [] c.op \in {"apushb", "xpushb"} -> SetSeq(D1, tok, SeqInsert(s, Len(s), cells))
        [] c.op \in {"apushf", "xpushf"} -> SetSeq(D1, tok, SeqInsert(s, 0, cells))
        [] c.op = "adel" -> SetSeq(D, tok, SeqRemove(s, c.i, 1))
